@@ -37,6 +37,11 @@ def gen_case(seed, idx):
     layer = n_layers * rs * hmax
     lo = rng.uniform(-2, 2, size=3) * float(rng.choice([1, 1, 50]))
     L = layer * rng.uniform(2.2, 6.0, size=3)
+    for a in range(dim):
+        # thin slabs between two mirror walls: a particle can be within the
+        # ghost layer of both walls of an axis (one image per wall)
+        if kinds[a] == 'm' and rng.random() < 0.35:
+            L[a] = layer * rng.uniform(1.15, 1.95)
     hi = lo + L
     narr = int(rng.choice([1, 2, 2, 3]))
     arrays = []
